@@ -130,6 +130,7 @@ static int op_api_count(int argc, tok_t *a, out_t *o) {
 #define NF 3
 typedef struct { mpz_t z[NZ]; mpq_t q[NQ]; mpf_t f[NF]; gmp_randstate_t r; int live; } pool_t;
 static pool_t pool[2];
+#define ABSZ(z) ((z)->_mp_size < 0 ? -(z)->_mp_size : (z)->_mp_size)
 static long base_blocks = -1;
 static long calls_since_reset;
 static void pool_free(void) {
@@ -209,6 +210,16 @@ static int op_call(int argc, tok_t *a, out_t *o) {
   for (int i = 0; i < np; i++) for (int j = i + 1; j < np; j++)
     if (is_ptr(d->sig[i]) && d->sig[i] == d->sig[j] && tok_long(&a[1 + i]) == tok_long(&a[1 + j])) return -1;
   apicall_t c[2]; int exc[2]; static unsigned salt;
+  /* keep operand sizes bounded so that long histories stay fast (tdiv_r_2exp is itself an API call) */
+  for (int p = 0; p < 2; p++) {
+    for (int i = 0; i < NZ; i++) if (ABSZ(pool[p].z[i]) > 48) mpz_tdiv_r_2exp(pool[p].z[i], pool[p].z[i], 64 * 8);
+    for (int i = 0; i < NQ; i++) if (ABSZ(mpq_numref(pool[p].q[i])) > 48 || ABSZ(mpq_denref(pool[p].q[i])) > 48) {
+      mpz_tdiv_r_2exp(mpq_numref(pool[p].q[i]), mpq_numref(pool[p].q[i]), 64 * 4);
+      mpz_tdiv_r_2exp(mpq_denref(pool[p].q[i]), mpq_denref(pool[p].q[i]), 64 * 4);
+      if (mpz_sgn(mpq_denref(pool[p].q[i])) == 0) mpz_set_ui(mpq_denref(pool[p].q[i]), 1);
+      mpq_canonicalize(pool[p].q[i]);
+    }
+  }
   for (int p = 0; p < 2; p++) {
     memset(&c[p], 0, sizeof c[p]);
     int zi = 0, qi = 0, fi = 0, ui = 0, si = 0, di = 0, bi = 0, ii = 0, ni = 0;
